@@ -146,7 +146,7 @@ func init() {
 		PID: "C08", PLevel: "exploration",
 		RuleText: "two families: (a) ENUMERATED small shapes: one batch of n<=4 records through a processor whose per-record result kind vector (pass, modify, filter, error, split) is enumerated (all 780 vectors in thorough on both engines, a strided 80 in quick), attached to the source, the pipeline or a destination, optionally followed by a second scripted processor (incl. cut-short) and per-piece destination rejections; (b) RANDOM larger shapes: batch sizes 1-64, up to 3 chained scripted processors per attachment point with conditions, up to 2x3 topologies. 3 of 4 cases run on arch-v2, 1 of 4 on the default engine (no split/cut-short there). Every acknowledged source record is one obligation: its observed outcome (pieces delivered per destination / nothing written / exactly the original dead-lettered) must equal the reference outcome; acked positions must be source positions; a healthy finished run must leave no record without outcome. Non-trivial: >=1 record judged with a processor result kind observed; distinct = distinct (engine, topology, set of result kinds exercised, outcome classes present).",
 		Assume:   []string{"reference model of plugin result semantics (internal/pipe/model.go)", "DLQ window unlimited in these scenarios so that every rejected record is dead-lettered"},
-		Quick:    280, Thorough: 9000,
+		Quick:    280, Thorough: 2800,
 		PointBias: []string{"funnel.worker.ack", "funnel.worker.nack", "funnel.multiack.ack", "funnel.multiack.nack"},
 		Anchors:   []string{"pkg/lifecycle-poc/funnel/batch.go", "pkg/lifecycle-poc/funnel/processor.go", "pkg/lifecycle-poc/funnel/worker.go", "pkg/lifecycle-poc/funnel/run_ledger.go", "pkg/lifecycle-poc/funnel/destination.go", "pkg/lifecycle/stream/processor.go", "pkg/processor/runnable_processor.go"},
 		Gen:       gen, Judge: judge,
